@@ -436,6 +436,10 @@ def resv_histories(seed, count, length, n):
 
 def C08(c):
     quick = c.tier == "quick"
+    # design level: the reservation actions (publish / cancel by index with lap reconstruction) from every counter origin
+    for script in ("Script_resv", "Script_resv2"):
+        c.mc("MC_RingAtomic", script, ring_consts(procs=2, origins=ALL_ORIGINS8, relax=True, checks=True), subst={"Script": script}, invariants=RING_INV,
+             required_actions=["MCCall", "PubIdxCasOk", "UnleakCasOk"], timeout=1200, workers=8)
     checks = ["InvLinearizable", "InvDeliveredAtMostOnce", "InvNoLossNoInvention", "NoPanic", "InvPendingCount"]
     cnt, ln = (8, 8) if quick else (60, 12)
     mr, rr = (150, 100) if quick else (3000, 2000)
@@ -459,6 +463,10 @@ def C08(c):
 
 def C16(c):
     quick = c.tier == "quick"
+    # design level: three producers overshooting at the full boundary against one consumer (recede paths), both rings
+    kf = kf_open(KF_SPURIOUS_EMPTY) is not None
+    c.mc("MC_RingAtomic", "Script_3p1c", ring_consts(procs=4, origins=[0, 7], relax=kf), subst={"Script": "Script_3p1c"}, invariants=RING_INV, required_actions=["MCCall", "EnqRecedeOk", "EnqRecedeFail"], timeout=3000, workers=10)
+    c.mc("MC_RingFullSync", "Script_2p1c", fs_consts(procs=3, origins=[0, 7]), subst={"Script": "Script_2p1c"}, invariants=["InvBounds", "InvLinearizable", "InvContents", "InvLockOwner"], required_actions=["MCCall"], timeout=3000, workers=10)
     mr, rr = (150, 100) if quick else (3000, 2000)
     checks = ["InvLinearizable", "InvRejectedSetterUninvoked", "InvDeliveredAtMostOnce", "InvNoLossNoInvention", "InvPendingCount", "InvNoStall", "NoPanic"]
 
@@ -621,6 +629,11 @@ def lifetime_histories(seed, count, length, s_max, max_sends=3):
 
 def C10(c):
     quick = c.tier == "quick"
+    # protocol level, sequential histories only (state constraint): listener creation / removal between sends never disturbs anybody
+    for kind in ("arc", "ogre"):
+        for churn in ("add", "remove"):
+            c.mc("MC_MultiFan", "%s_%s_sequential" % (kind, churn), multifan(kind, churn), subst={"Events": "Ev3"}, invariants=FAN_INV, init="Init", next_="Next", constraint="Sequential",
+                 required_actions=["SendVisit", "ChurnStart", "SyncWrite"], timeout=600, workers=6)
     cnt, ln = (10, 12) if quick else (80, 16)
 
     def build(kind):
@@ -680,6 +693,9 @@ def C17(c):
 
 
 def C05(c):
+    # design level: the reference-counting protocol never frees a value while a handle exists, nor touches the control block afterwards
+    c.mc("MC_OgreArc", "Script_3t", {"Procs": [0, 1, 2], "Names": ['"a"', '"b"', '"c"', '"d"', '"e"']}, subst={"Script": "Script_3t"},
+         invariants=["InvNotFreedWhileHeld", "InvCtlNotUsedAfterFree", "InvRefCount", "InvCounter", "InvFreedAtEnd"], required_actions=["MCCall", "DropDealloc"], timeout=600, workers=6)
     C05_uni(c)
     quick = c.tier == "quick"
     mr, rr = (150, 100) if quick else (3000, 2000)
@@ -796,7 +812,7 @@ def C14(c):
     quick = c.tier == "quick"
     names = ['"a"', '"b"', '"c"', '"d"', '"e"']
     inv = ["InvNotFreedWhileHeld", "InvCtlNotUsedAfterFree", "InvRefCount", "InvCounter", "InvFreedAtEnd"]
-    for script in ("Script_3t", "Script_3t2", "Script_hand"):
+    for script in ("Script_3t", "Script_3t2", "Script_hand", "Script_shared"):
         c.mc("MC_OgreArc", script, {"Procs": [0, 1, 2], "Names": names}, subst={"Script": script}, invariants=inv,
              required_actions=["MCCall", "CloneFA", "DropFS"] + (["DropDealloc"] if script == "Script_3t" else []), timeout=1200, workers=8)
     H = lambda name, **kw: dict({"op": name, "v": 0, "i": 0}, **kw)
@@ -813,7 +829,14 @@ def C14(c):
     pre3 = [H("newu", v=9, to="a")]
     th3 = [[H("deref", h="a"), H("into_arc", h="a"), H("refs", h="a"), H("clone", **{"from": "a", "to": "b"}), H("drop", h="a"), H("deref", h="b"), H("drop", h="b")]]
     th4 = [[H("deref", h="a"), H("drop", h="a")]]
-    for nm, pre, th in (("t1", pre2, th1), ("t2", pre2, th2), ("u1", pre3, th3), ("u2", pre3, th4)):
+    # ONE handle used through a shared reference by two threads at once (OgreArc is Sync): concurrent clones / bulk increments of a sole owner
+    pre1 = [H("new", v=5, to="a")]
+    th5 = [[H("clone", **{"from": "a", "to": "b"}), H("deref", h="b"), H("drop", h="b")],
+           [H("clone", **{"from": "a", "to": "c"}), H("refs", h="c"), H("drop", h="c")],
+           [H("deref", h="a")]]
+    th6 = [[H("clone", **{"from": "a", "to": "b"}), H("drop", h="b")],
+           [H("incr", **{"from": "a", "tos": ["c", "d"]}), H("drop", h="c"), H("drop", h="d")]]
+    for nm, pre, th in (("t1", pre2, th1), ("t2", pre2, th2), ("u1", pre3, th3), ("u2", pre3, th4), ("s1", pre1, th5), ("s2", pre1, th6)):
         scns.append(hscn("handles_%s_dfs" % nm, pre, th, dfs(3, mr)))
         if len(th) > 1:
             scns.append(hscn("handles_%s_rnd" % nm, pre, th, rnd(rr, c.seed * 100 + len(nm))))
@@ -893,6 +916,14 @@ def exec_cases_c11(seed, quick):
                         k += 1
                         cases.append({"id": "x%d_%s_%s_t%d_i%d_l%d" % (k, kind, "".join(i[0] if i != "slowerr" else "S" for i in items) or "none", int(timeout), instr, limit),
                                       "fam": "exec", "kind": kind, "timeout": timeout, "instr": instr, "limit": limit, "items": list(items), "release": order, "runtime": "current"})
+    # the concurrency limit itself, 1..8: more gated items than the limit allows in progress
+    for kind in ("fut_fallible", "fut"):
+        for limit in range(1, 9):
+            for timeout in (False, True):
+                n = limit + 2
+                k += 1
+                cases.append({"id": "x%d_%s_sweep_t%d_l%d" % (k, kind, int(timeout), limit), "fam": "exec", "kind": kind, "timeout": timeout, "instr": 7, "limit": limit,
+                              "items": ["ok"] * n, "release": list(range(n)), "runtime": "current"})
     # the same futures on the multi-thread runtime (outcomes do not depend on timing: items are gated)
     for i, c_ in enumerate(rng.sample(cases, 24 if quick else 200)):
         if c_["kind"] in ("fut_fallible", "fut"):
